@@ -115,11 +115,13 @@ def compare_with_model(obs, m):
         return "output file was not written"
     fmt = m["ok"]["format"]
     want = [from_wire(x) for x in m["ok"]["docs"]]
+    if fmt == "toml" and any(not isinstance(w, dict) for w in want):
+        # a document that is no table is written in TOML's VALUE syntax, which is not a TOML document (`[true]` would even parse - as a
+        # table header): there is nothing to read back; the status was compared above
+        return None
     try:
         got = parse_out(fmt, text)
     except Exception as e:
-        if fmt == "toml" and any(not isinstance(w, dict) for w in want):
-            return None     # a document that is no table is written in TOML's VALUE syntax (not a TOML document): nothing to read back
         return f"output is not valid {fmt}: {e}"
     got = [g for g in got]
     if fmt in ("yaml", "yml") and want == [] and got in ([], [None]):
